@@ -34,6 +34,8 @@ def run(rep, tier):
     extremes(rep, F)
     bbox_tables(rep, F)
     traversal_tables(rep, F)
+    from . import dims
+    dims.run(rep, F, "R19.10")      # is_empty / dimensions: 'None exactly when there are no coordinates' rests on them
     lines_rule(rep, F)
     map_rule(rep, F)
     error_discipline(rep, F)
